@@ -470,3 +470,353 @@ Lemma inv_keys_rev h : inv_keys (rev h) = rev (inv_keys h).
 Proof.
   induction h as [|e r IH]; cbn; auto. rewrite inv_keys_app, IH. destruct e; cbn; auto. now rewrite app_nil_r.
 Qed.
+
+(* ---------- the store computed by the servers and the sequential specification ---------- *)
+Lemma sm_get_put_other k k' v l : k' <> k -> sm_get k' (sm_put k v l) = sm_get k' l.
+Proof.
+  intros Hne. induction l as [|[k0 v0] r IH]; cbn.
+  - destruct (k' =? k) eqn:E; auto. apply Nat.eqb_eq in E. congruence.
+  - destruct (k <? k0) eqn:E1; cbn.
+    + destruct (k' =? k) eqn:E; auto. apply Nat.eqb_eq in E. congruence.
+    + destruct (k =? k0) eqn:E2; cbn.
+      * apply Nat.eqb_eq in E2. subst k0. destruct (k' =? k) eqn:E; auto. apply Nat.eqb_eq in E. congruence.
+      * destruct (k' =? k0); auto.
+Qed.
+
+Lemma mem_ins_iff k' k l : mem k' (ins k l) = true <-> k' = k \/ mem k' l = true.
+Proof.
+  unfold mem. rewrite !existsb_exists. split.
+  - intros (x & Hx & E). apply Nat.eqb_eq in E. subst x. apply In_ins in Hx as [->|Hx]; auto.
+    right. exists k'. split; auto. apply Nat.eqb_refl.
+  - intros [->|(x & Hx & E)].
+    + exists k. split; [apply In_ins; auto | apply Nat.eqb_refl].
+    + apply Nat.eqb_eq in E. subst x. exists k'. split; [apply In_ins; auto | apply Nat.eqb_refl].
+Qed.
+
+Definition dom_ok (smd : list (nat * nat) * list nat) : Prop :=
+  forall k, mem k (snd smd) = true <-> exists v, sm_get k (fst smd) = Some v.
+
+Lemma dom_ok_apply e smd : dom_ok smd -> dom_ok (apply_entry e smd).
+Proof.
+  intros H k. unfold apply_entry. destruct (c_type (e_cmd e)); [|apply H]. cbn [fst snd].
+  rewrite mem_ins_iff. destruct (Nat.eq_dec k (c_key (e_cmd e))) as [->|Hne].
+  - rewrite sm_get_put. split; eauto.
+  - rewrite sm_get_put_other by auto. rewrite (H k). split; [intros [?|?]; [congruence|auto] | auto].
+Qed.
+
+Lemma dom_ok_all l : dom_ok (apply_all l).
+Proof.
+  unfold apply_all. assert (G : forall acc, dom_ok acc -> dom_ok (fold_left (fun acc e => apply_entry e acc) l acc)).
+  { induction l as [|e r IH]; cbn; auto. intros acc Ha. apply IH. now apply dom_ok_apply. }
+  apply G. intros k. cbn. split; [discriminate | intros [v Hv]; discriminate].
+Qed.
+
+Definition match_cmd (o : op) (e : entry) : Prop :=
+  o_client o = e_client e /\ o_idx o = c_idx (e_cmd e) /\ e_cmd e = cmd_of_req (o_idx o) (o_req o).
+
+Lemma apply_op_entry o e m d : match_cmd o e -> apply_op o m = fst (apply_entry e (m, d)).
+Proof.
+  intros (_ & _ & E). unfold apply_op, apply_entry. rewrite E. cbn. destruct (r_type (o_req o)); reflexivity.
+Qed.
+
+(* the recorded response of a completed operation is what the sequential store answers *)
+Lemma response_matches o e pre t key v ok :
+  match_cmd o e -> c_type (e_cmd e) = t -> c_key (e_cmd e) = key ->
+  (v, ok) = impl_response (pre ++ [e]) key ->
+  resp_eqb (t, key, v, ok) (spec_response o (fst (apply_all (pre ++ [e])))) = true.
+Proof.
+  intros M Ht Hk Hr. destruct M as (_ & _ & E). rewrite E in Ht, Hk. cbn in Ht, Hk.
+  unfold impl_response in Hr. rewrite apply_all_app in *. cbn [fold_left] in *.
+  pose proof (dom_ok_all pre) as Dp. destruct (apply_all pre) as [m d] eqn:Ep.
+  unfold spec_response. unfold apply_entry in *. rewrite E in *. cbn [e_cmd cmd_of_req c_type c_key c_val] in *.
+  destruct (r_type (o_req o)) eqn:Ety; cbn [fst snd] in *; subst t key.
+  - (* Put *) assert (Hm : mem (r_key (o_req o)) (ins (r_key (o_req o)) d) = true) by (apply mem_ins_iff; auto).
+    rewrite Hm, sm_get_put in Hr. injection Hr as -> ->. cbn. now rewrite !Nat.eqb_refl.
+  - (* Get *) destruct (mem (r_key (o_req o)) d) eqn:Hm.
+    + apply (Dp (r_key (o_req o))) in Hm as [v' Hv']. cbn in Hv'. rewrite Hv' in *. injection Hr as -> ->.
+      cbn. now rewrite !Nat.eqb_refl.
+    + destruct (sm_get (r_key (o_req o)) m) as [v'|] eqn:Hv'.
+      * exfalso. assert (mem (r_key (o_req o)) d = true) by (apply (Dp (r_key (o_req o))); eauto). congruence.
+      * injection Hr as -> ->. cbn. now rewrite !Nat.eqb_refl.
+Qed.
+
+(* ---------- assembling the linearization: operations in the order of the applied log ---------- *)
+Definition no_dup_applied (cfg : config) (s : state) : Prop :=
+  forall i p q e1 e2, is_server cfg i = true -> 1 <= p -> 1 <= q ->
+    p <= s_commit (srv s i) -> q <= s_commit (srv s i) ->
+    log_at (s_log (srv s i)) p = Some e1 -> log_at (s_log (srv s i)) q = Some e2 ->
+    e_client e1 = e_client e2 -> c_idx (e_cmd e1) = c_idx (e_cmd e2) -> p = q.
+
+Lemma Forall2_nth_l {A B} (P : A -> B -> Prop) l1 l2 k a :
+  Forall2 P l1 l2 -> nth_error l1 k = Some a -> exists b, nth_error l2 k = Some b /\ P a b.
+Proof.
+  intros F. revert k. induction F; intros k Hk; destruct k; cbn in *; try discriminate.
+  - injection Hk as <-. eauto.
+  - eauto.
+Qed.
+Lemma Forall2_nth_r {A B} (P : A -> B -> Prop) l1 l2 k b :
+  Forall2 P l1 l2 -> nth_error l2 k = Some b -> exists a, nth_error l1 k = Some a /\ P a b.
+Proof.
+  intros F. revert k. induction F; intros k Hk; destruct k; cbn in *; try discriminate.
+  - injection Hk as <-. eauto.
+  - eauto.
+Qed.
+Lemma Forall2_exists {A B} (P : A -> B -> Prop) (l2 : list B) :
+  (forall b, In b l2 -> exists a, P a b) -> exists l1, Forall2 P l1 l2.
+Proof.
+  induction l2 as [|b r IH]; intros H; [exists []; constructor|].
+  destruct (H b (or_introl eq_refl)) as [a Ha]. destruct IH as [l1 Hl]; [intros x Hx; apply H; now right|].
+  exists (a :: l1). now constructor.
+Qed.
+
+Lemma max_commit_in s (l : list nat) : l <> [] ->
+  exists i, In i l /\ forall j, In j l -> s_commit (srv s j) <= s_commit (srv s i).
+Proof.
+  induction l as [|x r IH]; [congruence|]. intros _. destruct r as [|y r'].
+  - exists x. split; [now left|]. intros j [<-|[]]. lia.
+  - destruct IH as (i & Hi & Hmax); [discriminate|].
+    destruct (Nat.le_gt_cases (s_commit (srv s x)) (s_commit (srv s i))).
+    + exists i. split; [now right|]. intros j [<-|Hj]; auto.
+    + exists x. split; [now left|]. intros j [<-|Hj]; [lia|]. specialize (Hmax j Hj). lia.
+Qed.
+
+Lemma rev_nth_split {A} (l : list A) k x : nth_error (rev l) k = Some x ->
+  exists h2 h1, l = h2 ++ x :: h1 /\ List.length h1 = k.
+Proof.
+  intros H. apply nth_error_split in H as (l1 & l2 & E & Hl).
+  exists (rev l2), (rev l1). split.
+  - rewrite <- (rev_involutive l), E, rev_app_distr. cbn. now rewrite <- app_assoc.
+  - now rewrite rev_length.
+Qed.
+
+Lemma split_rev_pos {A} (h2 h1 : list A) x y : In y h1 ->
+  exists k, k < List.length h1 /\ nth_error (rev (h2 ++ x :: h1)) k = Some y.
+Proof.
+  intros Hy. rewrite rev_app_distr. cbn. rewrite <- app_assoc. apply in_rev in Hy. apply In_nth_error in Hy as [k Hk].
+  exists k. pose proof (nth_error_lt _ _ _ Hk) as Hl. rewrite rev_length in Hl. split; auto.
+  rewrite nth_error_app1 by (rewrite rev_length; lia). exact Hk.
+Qed.
+
+Lemma rt_ok_pairs (order : list op) :
+  (forall pa pb a b, pa < pb -> nth_error order pa = Some a -> nth_error order pb = Some b -> precedes b a = false) ->
+  rt_ok order.
+Proof.
+  induction order as [|a r IH]; intros H; cbn; auto. split.
+  - intros b Hb. apply In_nth_error in Hb as [k Hk]. apply (H 0 (S k) a b); auto. lia.
+  - apply IH. intros pa pb x y Hlt Hx Hy. apply (H (S pa) (S pb)); auto. lia.
+Qed.
+
+Section Final.
+  Variables (cfg : config) (s : state).
+  Hypothesis Hf : cfg_fifo cfg = true.
+  Hypothesis Hr : reachable cfg s.
+  Hypothesis ND : no_dup_applied cfg s.
+
+  Let h := history s.
+  Let ops := ops_of h.
+
+  Lemma agree i j p : p <= s_commit (srv s i) -> p <= s_commit (srv s j) ->
+    firstn p (s_log (srv s i)) = firstn p (s_log (srv s j)) /\ p <= List.length (s_log (srv s i)).
+  Proof.
+    intros Hi Hj. destruct (committed_firstn_stable cfg s s Hf Hr (steps_refl cfg s) j i p Hj Hi) as [E _].
+    destruct (committed_firstn_stable cfg s s Hf Hr (steps_refl cfg s) i i p Hi Hi) as [_ L]. split; auto.
+  Qed.
+
+  Lemma hist_keys : NoDup (inv_keys h).
+  Proof. unfold h, history. rewrite inv_keys_rev. apply NoDup_rev. apply (J2b _ _ (reachable_jinv _ _ Hr)). Qed.
+
+  Lemma in_h x : In x h <-> In x (hist s).
+  Proof. unfold h, history. symmetry. apply in_rev. Qed.
+
+  (* no server: nothing is ever acknowledged *)
+  Lemma lin_no_server : cfg_n cfg = 0 -> lin_spec h.
+  Proof.
+    intros Hn. unfold lin_spec. apply lin_pending. apply forallb_forall. intros o Ho.
+    destruct (completed o) eqn:Ec; auto. exfalso. unfold completed in Ec.
+    destruct (o_resp o) as [[p [[[t key] v] ok]]|] eqn:Er; [|discriminate].
+    destruct (ops_resp _ _ _ _ _ _ _ Ho Er) as [Hn' _]. apply nth_error_In, in_h in Hn'.
+    destruct (R2 _ _ (reachable_rinv _ _ Hf Hr) _ _ _ _ _ _ Hn') as (i & _ & _ & Hi & _).
+    unfold is_server in Hi. rewrite Hn in Hi. apply andb_prop in Hi as [A B]. apply Nat.leb_le in A, B. lia.
+  Qed.
+
+  Section WithMax.
+    Variable i0 : nat.
+    Hypothesis Hi0 : is_server cfg i0 = true.
+    Hypothesis Hmax : forall j, is_server cfg j = true -> s_commit (srv s j) <= s_commit (srv s i0).
+    Let c0 := s_commit (srv s i0).
+    Let CL := firstn c0 (s_log (srv s i0)).
+
+    Lemma CL_len : List.length CL = c0.
+    Proof. unfold CL. rewrite firstn_length. destruct (agree i0 i0 c0 (le_n _) (le_n _)) as [_ L]. fold c0 in L. lia. Qed.
+
+    Lemma CL_at i p : is_server cfg i = true -> 1 <= p -> p <= s_commit (srv s i) -> log_at (s_log (srv s i)) p = log_at CL p.
+    Proof.
+      intros Hi H1 Hp. pose proof (Hmax i Hi) as Hm. fold c0 in Hm.
+      destruct (agree i i0 p Hp) as [E _]; [fold c0; lia|].
+      unfold CL. rewrite log_at_firstn by lia.
+      rewrite <- (log_at_firstn (s_log (srv s i)) p p) by lia. rewrite E. apply log_at_firstn; lia.
+    Qed.
+
+    Lemma CL_unique p q e1 e2 : 1 <= p -> 1 <= q -> log_at CL p = Some e1 -> log_at CL q = Some e2 ->
+      e_client e1 = e_client e2 -> c_idx (e_cmd e1) = c_idx (e_cmd e2) -> p = q.
+    Proof.
+      intros P1 Q1 Hp Hq A B.
+      assert (Pl : p <= c0). { destruct p; [lia|]. cbn in Hp. apply nth_error_lt in Hp. rewrite CL_len in Hp. lia. }
+      assert (Ql : q <= c0). { destruct q; [lia|]. cbn in Hq. apply nth_error_lt in Hq. rewrite CL_len in Hq. lia. }
+      rewrite <- (CL_at i0 p Hi0 P1 Pl) in Hp. rewrite <- (CL_at i0 q Hi0 Q1 Ql) in Hq.
+      eapply (ND i0 p q e1 e2); eauto.
+    Qed.
+
+    Definition match_op (o : op) (e : entry) : Prop := In o ops /\ match_cmd o e.
+
+    Lemma order_exists : exists order, Forall2 match_op order CL.
+    Proof.
+      apply Forall2_exists. intros e He. unfold CL in He. apply In_firstn in He.
+      destruct (J1l _ _ (reachable_jinv _ _ Hr) i0 e He) as (r & Hin & Ecmd).
+      apply in_h in Hin. destruct (ops_of_inv _ _ _ _ Hin) as (o & Ho & A & B & C).
+      exists o. split; auto. unfold match_cmd. rewrite A, B, C. auto.
+    Qed.
+
+    Variable order : list op.
+    Hypothesis Hord : Forall2 match_op order CL.
+
+    Lemma order_at k o : nth_error order k = Some o -> exists e, log_at CL (S k) = Some e /\ In o ops /\ match_cmd o e.
+    Proof. intros Hk. destruct (Forall2_nth_l _ _ _ _ _ Hord Hk) as (e & He & Ho & Hm). exists e. auto. Qed.
+
+    Lemma order_of_entry p e : 1 <= p -> log_at CL p = Some e -> exists o, nth_error order (p - 1) = Some o /\ In o ops /\ match_cmd o e.
+    Proof.
+      intros P1 Hp. destruct p; [lia|]. cbn in Hp. replace (S p - 1) with p by lia.
+      destruct (Forall2_nth_r _ _ _ _ _ Hord Hp) as (o & Ho & Hin & Hm). exists o. auto.
+    Qed.
+
+    (* a response in the history belongs to the operation at the position of its entry in the applied log *)
+    Lemma resp_position c idx t key v ok : In (HResp c idx t key v ok) (hist s) ->
+      exists p e, 1 <= p /\ log_at CL p = Some e /\ e_client e = c /\ c_idx (e_cmd e) = idx /\ c_type (e_cmd e) = t /\
+                  c_key (e_cmd e) = key /\ (v, ok) = impl_response (firstn p CL) key.
+    Proof.
+      intros Hin. destruct (R2 _ _ (reachable_rinv _ _ Hf Hr) _ _ _ _ _ _ Hin) as (i & p & e & Hi & P1 & Pl & Hl & A & B & C & D & E).
+      exists p, e. rewrite <- (CL_at i p Hi P1 Pl). repeat split; auto.
+      rewrite E. f_equal. pose proof (Hmax i Hi) as Hm. fold c0 in Hm.
+      destruct (agree i i0 p Pl) as [Eg _]; [fold c0; lia|]. rewrite Eg. unfold CL. rewrite firstn_firstn. f_equal. lia.
+    Qed.
+
+    Lemma order_nodup : NoDup order.
+    Proof.
+      apply NoDup_nth_error. intros k1 k2 Hk1 Heq.
+      destruct (nth_error order k1) as [o|] eqn:E1; [|apply nth_error_None in E1; lia]. symmetry in Heq.
+      destruct (order_at _ _ E1) as (e1 & L1 & _ & (A1 & B1 & _)). destruct (order_at _ _ Heq) as (e2 & L2 & _ & (A2 & B2 & _)).
+      assert (S k1 = S k2); [|lia]. eapply CL_unique; eauto; try lia; congruence.
+    Qed.
+
+    Lemma order_complete o : In o ops -> completed o = true -> In o order.
+    Proof.
+      intros Ho Hc. unfold completed in Hc. destruct (o_resp o) as [[p [[[t key] v] ok]]|] eqn:Er; [|discriminate].
+      destruct (ops_resp _ _ _ _ _ _ _ Ho Er) as [Hn _]. apply nth_error_In, in_h in Hn.
+      destruct (resp_position _ _ _ _ _ _ Hn) as (q & e & Q1 & Hq & A & B & _).
+      destruct (order_of_entry q e Q1 Hq) as (o' & Ho' & Hin' & (A' & B' & _)).
+      assert (o' = o) by (apply (ops_unique h); auto; [apply hist_keys | congruence | congruence]). subst o'.
+      eapply nth_error_In; eauto.
+    Qed.
+
+    Lemma order_rt : rt_ok order.
+    Proof.
+      apply rt_ok_pairs. intros pa pb a b Hlt Ha Hb.
+      destruct (precedes b a) eqn:Hp; auto. exfalso. unfold precedes in Hp.
+      destruct (o_resp b) as [[rb [[[t key] v] ok]]|] eqn:Er; [|discriminate]. apply Nat.ltb_lt in Hp.
+      destruct (order_at _ _ Ha) as (ea & La & Hina & (Aa & Ba & _)).
+      destruct (order_at _ _ Hb) as (eb & Lb & Hinb & (Ab & Bb & _)).
+      destruct (ops_resp _ _ _ _ _ _ _ Hinb Er) as [Hn _].
+      unfold h, history in Hn. apply rev_nth_split in Hn as (h2 & h1 & Hsplit & Hlen).
+      destruct (R3 _ _ (reachable_rinv _ _ Hf Hr) _ _ _ _ _ _ _ _ Hsplit) as (i & p & Hi & P1 & Pl & (e & Hl & Ac & Ai) & Hall).
+      rewrite (CL_at i p Hi P1 Pl) in Hl.
+      assert (p = S pb) by (eapply CL_unique; eauto; try lia; congruence). subst p.
+      assert (Hqa : log_at (s_log (srv s i)) (S pa) = Some ea) by (rewrite (CL_at i (S pa) Hi); auto; lia).
+      pose proof (Hall (S pa) ea ltac:(lia) ltac:(lia) Hqa) as Hk. apply In_inv_keys in Hk as (r' & Hr').
+      destruct (split_rev_pos h2 h1 (HResp (o_client b) (o_idx b) t key v ok) _ Hr') as (k & Hk & Hnk).
+      rewrite <- Hsplit in Hnk. fold (history s) in Hnk. fold h in Hnk.
+      pose proof (ops_inv _ _ Hina) as Hia. rewrite Aa, Ba in Hia.
+      assert (o_inv a = k) by (eapply (inv_key_pos h hist_keys); eauto). lia.
+    Qed.
+
+    Lemma order_legal_aux : forall pre suf ord, CL = pre ++ suf -> Forall2 match_op ord suf -> legal (fst (apply_all pre)) ord.
+    Proof.
+      intros pre suf. revert pre. induction suf as [|e suf' IH]; intros pre ord Hcl F;
+        inversion F as [|x e0 ord' suf0 Hxe Hrest]; subst; cbn; auto.
+      destruct Hxe as [Hin Hm].
+      assert (Eap : apply_op x (fst (apply_all pre)) = fst (apply_all (pre ++ [e]))).
+      { rewrite apply_all_app. cbn [fold_left]. destruct (apply_all pre) as [m d]. apply apply_op_entry. exact Hm. }
+      rewrite Eap. split.
+      - unfold response_ok. destruct (o_resp x) as [[rp [[[t key] v] ok]]|] eqn:Er; auto.
+        destruct (ops_resp _ _ _ _ _ _ _ Hin Er) as [Hn _]. apply nth_error_In, in_h in Hn.
+        destruct (resp_position _ _ _ _ _ _ Hn) as (q & e' & Q1 & Hq & A & B & C & D & E).
+        assert (Hpe : log_at CL (S (List.length pre)) = Some e).
+        { cbn. rewrite Hcl. rewrite nth_error_app2 by lia. now rewrite Nat.sub_diag. }
+        destruct Hm as (A' & B' & C').
+        assert (q = S (List.length pre)) by (eapply CL_unique; eauto; try lia; congruence). subst q.
+        assert (e' = e) by congruence. subst e'.
+        assert (Efn : firstn (S (List.length pre)) CL = pre ++ [e]).
+        { rewrite Hcl. replace (S (List.length pre)) with (List.length pre + 1) by lia.
+          rewrite firstn_app_2. reflexivity. }
+        rewrite Efn in E. apply (response_matches x e pre t key v ok); auto. repeat split; auto.
+      - apply (IH (pre ++ [e])); auto. rewrite <- app_assoc. exact Hcl.
+    Qed.
+
+    Lemma lin_with_max : lin_spec h.
+    Proof.
+      unfold lin_spec. fold ops. exists order. repeat split.
+      - apply order_nodup.
+      - intros o Ho. apply In_nth_error in Ho as [k Hk]. destruct (order_at _ _ Hk) as (e & _ & Hin & _). exact Hin.
+      - apply order_complete.
+      - apply order_rt.
+      - apply (order_legal_aux [] CL order); auto.
+    Qed.
+  End WithMax.
+
+  Theorem linearizable_without_retry_lemma : lin_spec h.
+  Proof.
+    destruct (Nat.eq_dec (cfg_n cfg) 0) as [Hn|Hn]; [now apply lin_no_server|].
+    destruct (max_commit_in s (servers cfg)) as (i0 & Hi0 & Hmax).
+    { unfold servers. destruct (cfg_n cfg); [congruence|discriminate]. }
+    apply in_servers in Hi0.
+    assert (Hmax' : forall j, is_server cfg j = true -> s_commit (srv s j) <= s_commit (srv s i0)).
+    { intros j Hj. apply Hmax. now apply in_servers. }
+    destruct (order_exists i0) as [order Hord].
+    exact (lin_with_max i0 Hi0 Hmax' order Hord).
+  Qed.
+End Final.
+
+(* a decidable form of the hypothesis, for concrete executions *)
+Fixpoint keys_nodup_b (l : list (nat * nat)) : bool :=
+  match l with
+  | [] => true
+  | (c, i) :: r => negb (existsb (fun x => (fst x =? c) && (snd x =? i)) r) && keys_nodup_b r
+  end.
+Definition no_dup_applied_b (cfg : config) (s : state) : bool :=
+  forallb (fun i => (s_commit (srv s i) <=? List.length (s_log (srv s i))) &&
+                    keys_nodup_b (map (fun e => (e_client e, c_idx (e_cmd e))) (firstn (s_commit (srv s i)) (s_log (srv s i)))))
+          (servers cfg).
+
+Lemma keys_nodup_b_spec l : keys_nodup_b l = true ->
+  forall p q x y, nth_error l p = Some x -> nth_error l q = Some y -> x = y -> p = q.
+Proof.
+  induction l as [|[c i] r IH]; intros Hb p q x y Hp Hq E; [destruct p; discriminate|].
+  cbn in Hb. apply andb_prop in Hb as [H1 H2]. apply negb_true_iff in H1.
+  assert (Hno : forall k z, nth_error r k = Some z -> z <> (c, i)).
+  { intros k z Hk ->. assert (existsb (fun x => (fst x =? c) && (snd x =? i)) r = true); [|congruence].
+    apply existsb_exists. exists (c, i). split; [eapply nth_error_In; eauto|]. cbn. now rewrite !Nat.eqb_refl. }
+  destruct p, q; cbn in *; auto.
+  - exfalso. injection Hp as <-. subst y. exact (Hno _ _ Hq eq_refl).
+  - exfalso. injection Hq as <-. subst x. exact (Hno _ _ Hp eq_refl).
+  - f_equal. eapply IH; eauto.
+Qed.
+
+Lemma no_dup_applied_b_sound cfg s : no_dup_applied_b cfg s = true -> no_dup_applied cfg s.
+Proof.
+  unfold no_dup_applied_b. rewrite forallb_forall. intros Hb i p q e1 e2 Hi P1 Q1 Pl Ql Hp Hq A B.
+  specialize (Hb i (proj2 (in_servers cfg i) Hi)). apply andb_prop in Hb as [Hlen Hk]. apply Nat.leb_le in Hlen.
+  destruct p as [|p']; [lia|]. destruct q as [|q']; [lia|]. cbn in Hp, Hq. f_equal.
+  eapply (keys_nodup_b_spec _ Hk p' q' (e_client e1, c_idx (e_cmd e1)) (e_client e2, c_idx (e_cmd e2))).
+  - rewrite nth_error_map, nth_error_firstn_lt by lia. now rewrite Hp.
+  - rewrite nth_error_map, nth_error_firstn_lt by lia. now rewrite Hq.
+  - congruence.
+Qed.
